@@ -8,6 +8,14 @@ PY = '/venv/bin/python'
 
 MC = 'model_checking'
 CHECKS = {
+    'C11': (MC, 'exhaustive bounded input enumeration (all skeleton charts x all field kinds; every (field position, string) pair over a YAML-hostile alphabet) plus lock-step BFS of original vs re-imported chart',
+            'Every skeleton chart (<=4-6 states) with every field kind populated, API- and YAML-built, is round-tripped: field-by-field equality, == between originals and re-imports, and lock-step execution over the complete BFS of the original. Every string of a 70-string alphabet (YAML type look-alikes, indicators, quotes, multi-line, unicode line separators, BOM, emoji, control characters) is substituted at every field position, and every pair of strings for two state names.',
+            'Strings outside the alphabet are not covered; code/event strings are compared modulo surrounding whitespace; U+0085 is a known finding (F12).',
+            '§4 C11'),
+    'C12': ('fault_enumeration', 'exhaustive fault enumeration: every listed fault operator at every applicable position of every valid base document, singly, in all non-overlapping pairs and (small charts) triples',
+            'Valid base documents are all skeleton charts (<=5-6 states) rendered to YAML; the imported statechart is checked against the structural rules through public queries; each faulty document (duplicate names, misplaced transitions/history states, dangling initial/memory/target, unknown keys/types/priorities, both states and parallel states, missing name/root/statechart) must raise exactly StatechartError.',
+            'Only the listed fault operators; merely odd documents are outside the alphabet; two renamings are not combined (they can cancel out).',
+            '§4 C12'),
     'C08': (MC, 'explicit-state BFS over the real Interpreter with contract probes on every state/transition, plus exhaustive single-fault injection (every condition evaluation made to fail in turn)',
             'Every skeleton chart (<=4-5 states) carries 2 pre/2 post/2 invariant probes on every state and transition; for every (state, op) of the complete BFS (incl. empty steps and None calls) the clean log must be the documented evaluation sequence with the documented __old__ values, and for every evaluation j a run with that evaluation false must raise the right error class with the right owner and condition and run nothing afterwards.',
             'Both placements of transition pre-conditions/invariants relative to the exit code are accepted; relies on C03 for the truth of the MacroStep.',
